@@ -928,20 +928,33 @@ def run_hists(ctx, exe, hists, timeout=900, nproc=None):
     chunks = [hists[i::nproc] for i in range(nproc)]
 
     def one(ch):
-        if not ch:
-            return []
-        data = '\n'.join('\n'.join(h.lines()) for h in ch) + '\n'
-        rc, o, e = ctx.run([exe], inp=data.encode(), timeout=timeout)
-        out = o.decode('latin1').splitlines()
-        sizes = out[0] if out and out[0].startswith('sizes') else ''
-        out = out[1:] if sizes else out
-        res, p = [], 0
-        for h in ch:
-            n = len([l for l in h.lines() if not l.startswith('fail')])
-            res.append((h, [parse_line(l) for l in out[p:p + n]], sizes))
-            p += n
-        if rc != 0 or p != len(out):
-            res.append((None, 'harness exit %s, %d lines expected %d: %s' % (rc, len(out), p, e.decode('latin1')[-300:]), sizes))
+        res, deaths = [], 0
+        while ch:
+            data = '\n'.join('\n'.join(h.lines()) for h in ch) + '\n'
+            rc, o, e = ctx.run([exe], inp=data.encode(), timeout=timeout)
+            txt = o.decode('latin1')
+            out = txt.splitlines()
+            if txt and not txt.endswith('\n'):
+                out = out[:-1]                     # a partial line of the op during which the process died
+            sizes = out[0] if out and out[0].startswith('sizes') else ''
+            out = out[1:] if sizes else out
+            p, died_at = 0, None
+            for k, h in enumerate(ch):
+                n = len([l for l in h.lines() if not l.startswith('fail')])
+                recs = [parse_line(l) for l in out[p:p + n]]
+                if len(recs) < n and died_at is None and (rc != 0 or True):
+                    # the harness process itself died inside this history (a fault outside the guarded call, an allocation request
+                    # of absurd size, ...): the first op without an answer is reported as a crash of that op
+                    recs.append({'abort': 'CRASH', 'nreq': 0, 'raw': 'process exit %s: %s' % (rc, e.decode('latin1')[-300:])})
+                    died_at = k
+                    res.append((h, recs, sizes))
+                    break
+                res.append((h, recs, sizes))
+                p += n
+            if died_at is None:
+                break
+            deaths += 1
+            ch = ch[died_at + 1:] if deaths < 20 else []
         return res
     with ThreadPoolExecutor(nproc) as ex:
         parts = list(ex.map(one, chunks))
@@ -981,7 +994,7 @@ def monitor(h, recs):
         op = w[0]
         if 'abort' in d:
             if d['abort'] in ('CRASH', 'TIMEOUT'):
-                sig(MEM, d['abort'].lower(), i, request=d.get('nreq', 0))
+                sig(MEM | STATE, d['abort'].lower(), i, request=d.get('nreq', 0))      # whatever is being checked, a call that dies fails it
             elif d['abort'] != 'DEAD':
                 sig(MEM, 'harness-output-missing', i)
             break
